@@ -32,6 +32,11 @@ type RegexInfo struct {
 	Skel     []skelItem
 	SkelOK   bool
 	progs    map[*syntax.Regexp]*syntax.Prog
+	// leading-star shape: ^ (C*) rest $ with rest of bounded length and no word of rest starting with a byte of C
+	LeadSet  [128]bool
+	LeadOK   bool
+	Rest     *syntax.Regexp
+	RestMax  int
 }
 
 const inf = -1
@@ -117,6 +122,23 @@ func (w *World) regexInfo(pk *Pkg, name string) (*RegexInfo, error) {
 	return ri, nil
 }
 
+func (w *World) specRegex(key, pattern string) (*RegexInfo, error) {
+	w.regexMu.Lock()
+	defer w.regexMu.Unlock()
+	if w.regexes == nil {
+		w.regexes = map[string]*RegexInfo{}
+	}
+	if ri, ok := w.regexes[key]; ok {
+		return ri, nil
+	}
+	ri, err := newRegexInfo(key, pattern)
+	if err != nil {
+		return nil, err
+	}
+	w.regexes[key] = ri
+	return ri, nil
+}
+
 func newRegexInfo(key, pattern string) (*RegexInfo, error) {
 	re, err := syntax.Parse(pattern, syntax.Perl)
 	if err != nil {
@@ -136,8 +158,92 @@ func newRegexInfo(key, pattern string) (*RegexInfo, error) {
 	if re.Op == syntax.OpConcat && len(re.Sub) >= 2 && re.Sub[0].Op == syntax.OpBeginText && re.Sub[len(re.Sub)-1].Op == syntax.OpEndText {
 		ri.Anchored = true
 		ri.Skel, ri.SkelOK = skeleton(re.Sub[1 : len(re.Sub)-1])
+		ri.analyseLead(re.Sub[1 : len(re.Sub)-1])
 	}
 	return ri, nil
+}
+
+func (ri *RegexInfo) analyseLead(subs []*syntax.Regexp) {
+	if len(subs) < 1 {
+		return
+	}
+	first := subs[0]
+	if first.Op == syntax.OpCapture {
+		first = first.Sub[0]
+	}
+	set, min, ok := starClass(first)
+	if !ok || min != 0 {
+		return
+	}
+	rest := &syntax.Regexp{Op: syntax.OpConcat, Sub: subs[1:], Flags: ri.Re.Flags}
+	if len(subs) == 1 {
+		rest = &syntax.Regexp{Op: syntax.OpEmptyMatch}
+	}
+	_, mx := reLen(rest)
+	if mx == inf || mx > regexExactMax {
+		return
+	}
+	// first-byte set of rest must be disjoint from the star's class
+	p, err := syntax.Compile(rest.Simplify())
+	if err != nil {
+		return
+	}
+	seen := map[int]bool{}
+	var fs [128]bool
+	var walk func(pc int)
+	walk = func(pc int) {
+		if seen[pc] {
+			return
+		}
+		seen[pc] = true
+		in := &p.Inst[pc]
+		switch in.Op {
+		case syntax.InstAlt, syntax.InstAltMatch:
+			walk(int(in.Out))
+			walk(int(in.Arg))
+		case syntax.InstNop, syntax.InstCapture, syntax.InstEmptyWidth:
+			walk(int(in.Out))
+		case syntax.InstRune, syntax.InstRune1:
+			bs := byteSet(in)
+			for b := 0; b < 128; b++ {
+				if bs[b] {
+					fs[b] = true
+				}
+			}
+		}
+	}
+	walk(p.Start)
+	for b := 0; b < 128; b++ {
+		if fs[b] && set[b] {
+			return
+		}
+	}
+	ri.LeadSet, ri.LeadOK, ri.Rest, ri.RestMax = set, true, rest, mx
+	ri.progs[rest] = p
+}
+
+// leadRun: the number of leading bytes of view that belong to set -- a function of the view, introduced with its
+// defining properties (0 <= k <= len, all bytes before k in the set, the byte at k, if any, not in it).
+func (x *Exec) leadRun(view StrVal, set [128]bool) *Term {
+	o := x.o
+	name := "leadrun"
+	for b := 0; b < 128; b++ {
+		if set[b] {
+			name += fmt.Sprintf(".%d", b)
+		}
+	}
+	k := o.UF(name, o.IdxSort(), view.Arr, view.Off, view.Len)
+	if x.leadDone == nil {
+		x.leadDone = map[*Term]bool{}
+	}
+	if !x.leadDone[k] {
+		x.leadDone[k] = true
+		i := o.BoundVar("i", o.IdxSort())
+		x.assume(o.And(o.IdxLe(o.Idx(0), k), o.IdxLe(k, view.Len)))
+		x.assume(o.Forall([]*Term{i}, o.Implies(o.And(o.IdxLe(o.Idx(0), i), o.IdxLt(i, k)), x.classTerm(set, o.Select(view.Arr, o.IdxAdd(view.Off, i))))))
+		x.assume(o.Implies(o.IdxLt(k, view.Len), o.Not(x.classTerm(set, o.SelByte(view.Arr, o.IdxAdd(view.Off, k))))))
+	}
+	return k
 }
 
 func skeleton(subs []*syntax.Regexp) ([]skelItem, bool) {
@@ -429,6 +535,13 @@ func (x *Exec) inLangRI(ri *RegexInfo, view StrVal) *Term {
 		get := func(i int) *Term { return o.SelByte(view.Arr, o.IdxAdd(view.Off, o.Idx(int64(i)))) }
 		return o.And(o.IdxLe(view.Len, o.Idx(int64(ri.MaxLen))), x.nfaMatch(ri.Prog, get, view.Len, ri.MaxLen, o.True(), o.True()))
 	}
+	if ri.LeadOK {
+		// exact: the leading run is forced (no word of `rest` starts with a byte of the class), the rest is bounded
+		k := x.leadRun(view, ri.LeadSet)
+		n := o.IdxSub(view.Len, k)
+		get := func(i int) *Term { return o.SelByte(view.Arr, o.IdxAdd(o.IdxAdd(view.Off, k), o.Idx(int64(i)))) }
+		return o.And(o.IdxLe(n, o.Idx(int64(ri.RestMax))), x.nfaMatch(ri.progFor(ri.Rest), get, n, ri.RestMax, o.True(), o.True()))
+	}
 	return o.UF("inlang."+ri.Name, BoolSort, view.Arr, view.Off, view.Len)
 }
 
@@ -481,6 +594,10 @@ func (x *Exec) skeletonFacts(ri *RegexInfo, view StrVal, tag string) (*Term, []*
 	}
 	end := walk(ri.Skel, o.Idx(0), o.True())
 	facts = append(facts, o.Eq(end, view.Len))
+	if ri.LeadOK && len(ri.Skel) > 0 && ri.Skel[0].Kind == "cap" {
+		// the star's capture is exactly the leading run (no word of the rest starts with a byte of its class)
+		facts = append(facts, o.Eq(lens[ri.Skel[0].Cap], x.leadRun(view, ri.LeadSet)))
+	}
 	return o.And(facts...), starts, lens
 }
 
